@@ -11,11 +11,21 @@ func zzRunes(n int) []rune {
 	out := make([]rune, n)
 	for i := range out {
 		r := zz.Rune()
-		zz.Assume(zz.And(r >= 0, r < 0x80))
+		if zzWide {
+			zz.Assume(zz.And(r >= 0, r <= 0x10FFFF))
+		} else {
+			zz.Assume(zz.And(r >= 0, r < 0x80))
+		}
 		out[i] = r
 	}
 	return out
 }
+
+// zzWide: the symbolic runes range over every code point 0..0x10FFFF (what
+// []rune(src) can hold for arbitrary bytes, and more: surrogates included).
+// unicode.IsLetter is then membership in the real range table and string(rune)
+// the UTF-8 encoding by length class.
+var zzWide bool
 
 // zzScanState builds an arbitrary scanner state satisfying the invariant I
 // over src = prefix ++ suffix(symbolic, n runes).
@@ -113,3 +123,14 @@ func ZZ_C15_P1_scan_n4() { zzScanStep(4) }
 func ZZ_C15_P1_scan_n5() { zzScanStep(5) }
 func ZZ_C15_P1_scan_n6() { zzScanStep(6) }
 func ZZ_C15_P1_scan_n8() { zzScanStep(8) }
+
+func zzScanStepWide(n int) {
+	zzWide = true
+	defer func() { zzWide = false }()
+	zzScanStep(n)
+}
+
+func ZZ_C15_P1_scan_wide_n1() { zzScanStepWide(1) }
+func ZZ_C15_P1_scan_wide_n2() { zzScanStepWide(2) }
+func ZZ_C15_P1_scan_wide_n3() { zzScanStepWide(3) }
+func ZZ_C15_P1_scan_wide_n4() { zzScanStepWide(4) }
